@@ -44,10 +44,13 @@ def _case(draw):
     mc = draw(matrices(m_max=7, n_max=10, families=FAMILIES, max_scale_exp=0))
     m = len(mc["J"])
     agg = draw(st.sampled_from(["UPGrad", "DualProj"]))
-    kind = draw(st.sampled_from(["none", "uniform", "random", "random", "zeros"]))
+    kind = draw(st.sampled_from(["none", "uniform", "random", "random", "zeros", "constant"]))
     pref = None
     if kind == "uniform":
         pref = [1.0 / m] * m
+    elif kind == "constant":
+        # all entries equal but NOT 1/m (the result scales with the preference), including the all-zero preference
+        pref = [draw(st.sampled_from([1.0, 2.0, 0.25, 10.0, 0.0]))] * m
     elif kind in ("random", "zeros"):
         rng = np.random.default_rng(draw(SEEDS))
         v = 10.0 ** rng.uniform(-2, 1, size=m)
